@@ -6,7 +6,7 @@
    scancode layer is independent of the set", C03's "end-to-end from scancodes").
    The five JIS keys are excepted for Set 1 (open known finding F1). *)
 From Coq Require Import NArith Bool List String.
-From PK Require Import Base.Outcome Base.Finite Gen.All Impl Enc Seq Spec.ScanRef Spec.ScanAuto Spec.Mods Syn.Lay Check.Lay.
+From PK Require Import Base.Outcome Base.Finite Gen.All Impl Enc Seq Spec.Frame Spec.ScanRef Spec.ScanAuto Spec.Mods Syn.Lay Check.Lay.
 Import ListNotations.
 Local Open Scope N_scope.
 
@@ -51,3 +51,42 @@ Proof.
 Qed.
 Print Assumptions end_to_end_full.
 Eval vm_compute in ("evaluations"%string, N.of_nat (List.length (list_prod (list_prod (count_from 10 0) (count_from 2 0)) ref_table))).
+
+(* --- the same through the wire: every byte sent as an 11-bit frame, bit by bit, and as a whole word --- *)
+Definition bits_of_frame (w : N) : list kop := map (fun i => KBit (N.testbit w i)) (count_from 11 0).
+Definition frame_of (b : N) : N := Spec.Frame.encode b.
+Definition typed_bits (setn li mi : N) (bytes : list N) : list N :=
+  last (fst (run_case setn li mi (flat_map (fun b => bits_of_frame (frame_of b)) bytes))) [].
+Definition typed_words (setn li mi : N) (bytes : list N) : list N :=
+  last (fst (run_case setn li mi (map (fun b => KWord (frame_of b)) bytes))) [].
+
+Definition wire_ok (li mi : N) (row : KeyCode * option scode * option scode) : bool :=
+  let '(k, s1, s2) := row in
+  (match s1 with Some sc => list_eqb N.eqb (typed_bits 1 li mi (bytes1 sc)) (typed 1 li mi (bytes1 sc)) &&
+                            list_eqb N.eqb (typed_words 1 li mi (bytes1 sc)) (typed 1 li mi (bytes1 sc)) | None => true end) &&
+  (match s2 with Some sc => list_eqb N.eqb (typed_bits 2 li mi (bytes2 sc)) (typed 2 li mi (bytes2 sc)) &&
+                            list_eqb N.eqb (typed_words 2 li mi (bytes2 sc)) (typed 2 li mi (bytes2 sc)) | None => true end).
+
+Lemma wire_all :
+  filter (fun x : N * N * (KeyCode * option scode * option scode) => negb (wire_ok (fst (fst x)) (snd (fst x)) (snd x)))
+         (list_prod (list_prod (count_from 10 0) (count_from 2 0)) ref_table) = [].
+Proof. vm_compute. reflexivity. Qed.
+
+(* --- with a modifier held: left Shift pressed first (through its own scancode), then the key --- *)
+Definition shift_mods : Modifiers := Modifiers_mk true false false false true false false false false.
+Definition expected_shifted (l : AnyLayout) (hc : HandleControl) (k : KeyCode) : list N :=
+  enc_sc (Ret (Ok (Some (KeyEvent_mk k KeyState_Down)))) ++
+  enc_dec (match event_result (fun k' => Ret (DecodedKey_RawKey k')) (fun k' => syn_lay_map l k' shift_mods hc) shift_mods (KeyEvent_mk k KeyState_Down) with
+           | None => Ret None | Some r => omap Some r end).
+Definition shifted_ok (li mi : N) (row : KeyCode * option scode * option scode) : bool :=
+  let '(k, s1, s2) := row in
+  let l := layout_of li in let hc := mode_of mi in
+  is_status k || KeyCode_eqb k KeyCode_LShift ||
+  ((match s1 with Some sc => jis k || list_eqb N.eqb (typed 1 li mi (0x2A :: bytes1 sc)) (expected_shifted l hc k) | None => true end) &&
+   (match s2 with Some sc => list_eqb N.eqb (typed 2 li mi (0x12 :: bytes2 sc)) (expected_shifted l hc k) | None => true end)).
+Lemma shifted_all :
+  filter (fun x : N * N * (KeyCode * option scode * option scode) => negb (shifted_ok (fst (fst x)) (snd (fst x)) (snd x)))
+         (list_prod (list_prod (count_from 10 0) (count_from 2 0)) ref_table) = [].
+Proof. vm_compute. reflexivity. Qed.
+Print Assumptions wire_all.
+Print Assumptions shifted_all.
